@@ -9,6 +9,7 @@ import SpsdkVerif.Spec.BdSem
 import SpsdkVerif.Spec.BdStmtSem
 
 namespace SpsdkVerif.Bd
+open SpsdkVerif.Generated
 variable (L : Levels)
 
 theorem parsePrimary_succ (f : Nat) (ts : List Tok) :
